@@ -169,50 +169,8 @@ fn ival_reach_witness() {
     }
 }
 
-// ---------------------------------------------------------------- outward rounding, all doubles
-// The end points must enclose the EXACT real result, not only its rounding to nearest. The exact result of one
-// floating point operation is written as (rounded value, residual) by the classical error-free transformations,
-// computed here independently of the code under test: Knuth's TwoSum for a sum, the fused multiply-add residual
-// for a product, the fma remainder for a quotient. With v the rounded value and e the residual (|e| <= ulp/2):
-//      lower <= v + e   <=>   lower < v  or  (lower == v and e >= 0)
-// Inputs: ALL doubles of magnitude 0 or in [1e-100, 1e100] (no overflow / underflow inside the transformations).
-fn sized() -> f64 {
-    let x: f64 = kani::any();
-    kani::assume(x == 0.0 || (x >= 1e-100 && x <= 1e100) || (x <= -1e-100 && x >= -1e100));
-    x
-}
-fn encloses(lower: f64, upper: f64, v: f64, e: f64) -> bool {
-    (lower < v || (lower == v && e >= 0.0)) && (upper > v || (upper == v && e <= 0.0))
-}
-#[kani::proof]
-fn ival_add_exact() {
-    let (x, y) = (sized(), sized());
-    let r = Bounds::singleton(x).add(Bounds::singleton(y));
-    let s = x + y;
-    let yy = s - x;
-    let e = (x - (s - yy)) + (y - yy);
-    assert!(encloses(r.lower, r.upper, s, e));
-    let r = Bounds::singleton(x).sub(Bounds::singleton(y));
-    let s = x - y;
-    let yy = s - x;
-    let e = (x - (s - yy)) + (-y - yy);
-    assert!(encloses(r.lower, r.upper, s, e));
-}
-#[kani::proof]
-fn ival_scale_exact() {
-    let (x, k) = (sized(), sized());
-    let r = Bounds::singleton(x).scale(k);
-    let p = x * k;
-    let e = x.mul_add(k, -p);
-    assert!(encloses(r.lower, r.upper, p, e));
-}
-#[kani::proof]
-fn ival_div_exact() {
-    let (x, k) = (sized(), sized());
-    kani::assume(k != 0.0);
-    let r = Bounds::singleton(x).div_by(k);
-    let q = x / k;
-    let rem = -q.mul_add(k, -x);
-    let e = if k > 0.0 { rem } else { -rem };
-    assert!(encloses(r.lower, r.upper, q, e));
-}
+// (Harnesses asserting that the end points enclose the EXACT sum / product / quotient - residuals from Knuth's TwoSum
+// and the fma remainder - were written after the outward-rounding fix and measured: over all doubles, and also over
+// 16-bit significands at four exponents plus eight non-dyadic constants, none of add / scale / div_by finished within
+// 600-700 s (57k variables, the UNSAT proof is the TwoSum theorem itself). Not run; the property is decided end to end
+// by C07's ill-conditioned and cancellation-chain families instead.)
